@@ -1,5 +1,5 @@
 (* TimerRun_proofs.v — theorems about Model/TimerRun.v *)
-From Coq Require Import ZArith List Bool Lia ZifyBool.
+From Coq Require Import ZArith List Bool Lia ZifyBool Znumtheory.
 From Verif Require Import Word Bits Tactics Gen_consts Gen_time Gen_timer Time Time_proofs Heap TimerRun Heap_proofs.
 Import ListNotations.
 Local Open Scope Z_scope.
@@ -417,3 +417,595 @@ Proof.
         clearbody l2. destruct (negb (cnum c =? 2)); (eexists; split; [reflexivity|]); rewrite u64_id by lia; lia.
 Qed.
 End Cfg.
+
+(* ================================================================================================ *)
+(* whole-history composition: every heap satisfies Inv w.r.t. its armed members, in every reachable state *)
+
+Definition member (st : state) (tidx t : Z) : Prop :=
+  t <> 0 /\ t_armed (tm st t) = true /\ t_ident (tm st t) = tidx.
+
+Definition HInvs (st : state) : Prop :=
+  forall tidx, Inv (keyof (s_timers st)) (member st tidx) (s_heaps st tidx).
+
+(* the same, except that the keys of timer t may already have been overwritten (compute_missed / configure run
+   before the heap is updated) *)
+Definition HInvsX (st : state) (t : Z) : Prop :=
+  exists key0, (forall g u, u <> t -> key0 g u = keyof (s_timers st) g u) /\
+               forall tidx, Inv key0 (member st tidx) (s_heaps st tidx).
+
+Definition room (st : state) (k : Z) : Prop := forall tidx, h_count (s_heaps st tidx) + 2 * k <= CAPMAX.
+
+Lemma HInvs_X st t : HInvs st -> HInvsX st t.
+Proof. intros H. exists (keyof (s_timers st)). split; auto. Qed.
+
+Lemma HInvsX_notarmed st t : HInvsX st t -> t_armed (tm st t) = false -> HInvs st.
+Proof.
+  intros [key0 [Hk HI]] Na tidx. apply (Inv_iff key0 _ (member st tidx) _ _ (HI tidx)); [tauto|].
+  intros g u [_ [A _]]. symmetry. apply Hk. intros ->. congruence.
+Qed.
+
+(* replacing the record of t by one with the same armed bit and ident *)
+Lemma member_set_timer st t v tidx u :
+  t_armed v = t_armed (tm st t) -> t_ident v = t_ident (tm st t) ->
+  (member (set_timer st t v) tidx u <-> member st tidx u).
+Proof.
+  intros Ea Ei. unfold member. destruct (Z.eq_dec u t) as [->|N].
+  - rewrite tm_set_timer_eq, Ea, Ei. tauto.
+  - rewrite tm_set_timer_neq by auto. tauto.
+Qed.
+
+Lemma keyof_set_timer st t v g u : u <> t -> keyof (s_timers (set_timer st t v)) g u = keyof (s_timers st) g u.
+Proof.
+  intros N. unfold keyof, set_timer, updf; simpl. destruct (Z.eqb_spec u t); [contradiction|reflexivity].
+Qed.
+
+Lemma HInvs_set_values st t v :
+  HInvs st -> t_armed v = t_armed (tm st t) -> t_ident v = t_ident (tm st t) -> HInvsX (set_timer st t v) t.
+Proof.
+  intros H Ea Ei. exists (keyof (s_timers st)). split.
+  - intros g u N. symmetry. apply keyof_set_timer; auto.
+  - intros tidx. apply (Inv_iff _ _ _ _ _ (H tidx)); auto.
+    intros u. symmetry. apply member_set_timer; auto.
+Qed.
+
+Lemma HInvsX_set_same st t v :
+  HInvsX st t -> t_armed v = t_armed (tm st t) -> t_ident v = t_ident (tm st t) -> HInvsX (set_timer st t v) t.
+Proof.
+  intros [key0 [Hk HI]] Ea Ei. exists key0. split.
+  - intros g u N. rewrite keyof_set_timer by auto. auto.
+  - intros tidx. apply (Inv_iff _ _ _ _ _ (HI tidx)); auto.
+    intros u. symmetry. apply member_set_timer; auto.
+Qed.
+
+(* same keys, armed bit and ident for t: nothing changes for the heaps *)
+Lemma HInvs_set_same st t v :
+  HInvs st -> t_armed v = t_armed (tm st t) -> t_ident v = t_ident (tm st t) ->
+  t_target v = t_target (tm st t) -> t_deadline v = t_deadline (tm st t) -> HInvs (set_timer st t v).
+Proof.
+  intros H Ea Ei Et Ed tidx. apply (Inv_iff _ _ _ _ _ (H tidx)).
+  - intros u. symmetry. apply member_set_timer; auto.
+  - intros g u _. unfold keyof, set_timer, updf, tm in *; simpl. destruct (Z.eqb_spec u t) as [->|]; auto.
+    destruct (g =? 0); auto.
+Qed.
+
+(* ---- accessors of disarm / arm *)
+Lemma disarm_tm st t u : tm (disarm st t) u = if u =? t then with_armed (tm st t) false else tm st u.
+Proof. unfold disarm, tm, set_timer, set_dirty, set_heap, updf; simpl. reflexivity. Qed.
+Lemma disarm_heap st t i :
+  s_heaps (disarm st t) i =
+  if i =? t_ident (tm st t) then remove (keyof (s_timers st)) (s_heaps st (t_ident (tm st t))) t else s_heaps st i.
+Proof. unfold disarm, tm, set_timer, set_dirty, set_heap, updf; simpl. reflexivity. Qed.
+Lemma disarm_keyof st t g u : keyof (s_timers (disarm st t)) g u = keyof (s_timers st) g u.
+Proof.
+  unfold keyof. change (s_timers (disarm st t) u) with (tm (disarm st t) u). rewrite disarm_tm.
+  destruct (Z.eqb_spec u t) as [->|]; reflexivity.
+Qed.
+
+Lemma disarm_X st t :
+  HInvsX st t -> member st (t_ident (tm st t)) t -> HInvs (disarm st t) /\
+  (forall k, room st k -> room (disarm st t) k).
+Proof.
+  intros [key0 [Hk HI]] M. set (ti := t_ident (tm st t)) in *.
+  assert (Hk' : forall g u, u <> t -> keyof (s_timers st) g u = key0 g u) by (intros; symmetry; auto).
+  pose proof (remove_ext key0 (keyof (s_timers st)) _ _ t (HI ti) M Hk') as RE.
+  destruct (remove_inv key0 _ _ t (HI ti) M) as [RI [RC _]].
+  split.
+  - intros tidx. rewrite disarm_heap. fold ti. destruct (Z.eqb_spec tidx ti) as [->|N].
+    + rewrite RE. apply (Inv_iff _ _ _ _ _ RI).
+      * intros u. unfold member. rewrite disarm_tm. destruct (Z.eqb_spec u t) as [->|Nu]; simpl; [intuition congruence|tauto].
+      * intros g u [_ Nu]. rewrite disarm_keyof. symmetry. apply Hk. exact Nu.
+    + apply (Inv_iff _ _ _ _ _ (HI tidx)).
+      * intros u. unfold member. rewrite disarm_tm. destruct (Z.eqb_spec u t) as [->|Nu]; simpl; [|tauto].
+        unfold ti in N. intuition congruence.
+      * intros g u [_ [_ Ui]]. rewrite disarm_keyof. symmetry. apply Hk. intros ->. unfold ti in N. congruence.
+  - intros k R tidx. rewrite disarm_heap. fold ti. destruct (Z.eqb_spec tidx ti) as [->|N]; [|apply R].
+    rewrite RE, RC. pose proof (R ti). lia.
+Qed.
+
+Lemma resift_count kk hh dd ii : h_count (resift kk hh dd ii) = h_count hh.
+Proof.
+  unfold resift.
+  assert (SU : forall f kk hid dt hh ii su, h_count (fst (fst (sift_up f kk hid dt hh ii su))) = h_count hh).
+  { induction f; intros; simpl; auto. destruct (_ >=? _); auto. destruct (_ <=? _); auto. rewrite IHf. reflexivity. }
+  assert (SD : forall f kk hid dt hh ii, h_count (fst (sift_down f kk hid dt hh ii)) = h_count hh).
+  { induction f; intros; simpl; auto. destruct (_ <? _); auto.
+    destruct (if _ <? _ then _ else _) as [c1 d1]. destruct (_ <=? _); auto. rewrite IHf. reflexivity. }
+  destruct (sift_up _ _ _ _ _ _ _) as [[h1 i1] su] eqn:E1.
+  pose proof (SU (Z.to_nat ii) kk (heap_id ii) dd hh ii false) as Q. rewrite E1 in Q. simpl in Q.
+  destruct su; [simpl; auto|].
+  destruct (sift_down _ _ _ _ _ _) as [h2 i2] eqn:E2.
+  pose proof (SD (Z.to_nat (h_count h1)) kk (heap_id ii) dd h1 i1) as Q2. rewrite E2 in Q2. simpl in Q2.
+  simpl. congruence.
+Qed.
+Lemma update_count key h dt : h_count (update key h dt) = h_count h.
+Proof. unfold update. rewrite !resift_count. reflexivity. Qed.
+
+Lemma arm_tm st t tidx u :
+  tm (arm st t tidx) u =
+  if t_armed (tm st t) then tm st u
+  else if u =? t then with_armed (with_ident (tm st t) tidx) true else tm st u.
+Proof.
+  unfold arm. destruct (t_armed (tm st t)); [reflexivity|].
+  unfold tm, set_timer, set_dirty, set_heap, updf; simpl. destruct (Z.eqb_spec u t) as [->|]; [|reflexivity].
+  rewrite Z.eqb_refl. reflexivity.
+Qed.
+Lemma arm_heap st t tidx i :
+  s_heaps (arm st t tidx) i =
+  if i =? tidx then
+    (if t_armed (tm st t) then update (keyof (s_timers st)) (s_heaps st tidx) t
+     else insert (keyof (s_timers (set_timer st t (with_ident (tm st t) tidx)))) (s_heaps st tidx) t 0)
+  else s_heaps st i.
+Proof.
+  unfold arm. destruct (t_armed (tm st t)); unfold tm, set_timer, set_dirty, set_heap, updf; simpl;
+    destruct (Z.eqb_spec i tidx); reflexivity.
+Qed.
+Lemma arm_keyof st t tidx g u : keyof (s_timers (arm st t tidx)) g u = keyof (s_timers st) g u.
+Proof.
+  unfold keyof. change (s_timers (arm st t tidx) u) with (tm (arm st t tidx) u). rewrite arm_tm.
+  destruct (t_armed (tm st t)); [reflexivity|]. destruct (Z.eqb_spec u t) as [->|]; reflexivity.
+Qed.
+
+Lemma arm_X st t tidx :
+  HInvsX st t -> t <> 0 -> (t_armed (tm st t) = true -> t_ident (tm st t) = tidx) -> room st 1 ->
+  HInvs (arm st t tidx) /\ (forall k, room st (k + 1) -> room (arm st t tidx) k).
+Proof.
+  intros HX Nz Hid R1. destruct (t_armed (tm st t)) eqn:Ea.
+  - (* update *)
+    destruct HX as [key0 [Hk HI]]. specialize (Hid eq_refl).
+    assert (M : member st tidx t) by (unfold member; auto).
+    assert (Hk' : forall g u, u <> t -> keyof (s_timers st) g u = key0 g u) by (intros; symmetry; auto).
+    destruct (update_inv (keyof (s_timers st)) _ _ t key0 (HI tidx) M Hk') as [UI _].
+    split.
+    + intros i. rewrite arm_heap, Ea. destruct (Z.eqb_spec i tidx) as [->|N].
+      * apply (Inv_iff _ _ _ _ _ UI).
+        -- intros u. unfold member. rewrite arm_tm, Ea. tauto.
+        -- intros g u _. apply arm_keyof.
+      * apply (Inv_iff _ _ _ _ _ (HI i)).
+        -- intros u. unfold member. rewrite arm_tm, Ea. tauto.
+        -- intros g u [_ [_ Ui]]. rewrite arm_keyof. symmetry. apply Hk. intros ->. congruence.
+    + intros k R i. rewrite arm_heap, Ea. pose proof (R i). destruct (Z.eqb_spec i tidx) as [->|N]; [rewrite update_count|]; lia.
+  - (* insert *)
+    pose proof (HInvsX_notarmed _ _ HX Ea) as H.
+    set (st1 := set_timer st t (with_ident (tm st t) tidx)).
+    assert (NS : ~ member st tidx t) by (unfold member; intros [_ [A _]]; congruence).
+    assert (I1 : Inv (keyof (s_timers st1)) (member st tidx) (s_heaps st tidx)).
+    { apply (Inv_iff _ _ _ _ _ (H tidx)); [tauto|]. intros g u [_ [A _]]. apply keyof_set_timer. intros ->. congruence. }
+    destruct (insert_inv (keyof (s_timers st1)) _ _ t 0 I1 NS Nz ltac:(pose proof (R1 tidx); lia)) as [II [IC _]].
+    split.
+    + intros i. rewrite arm_heap, Ea. fold st1. destruct (Z.eqb_spec i tidx) as [->|N].
+      * apply (Inv_iff _ _ _ _ _ II).
+        -- intros u. unfold member. rewrite arm_tm, Ea. destruct (Z.eqb_spec u t) as [->|Nu]; simpl; [tauto|].
+           split; [intros [X|X]; [contradiction|exact X]|auto].
+        -- intros g u _. rewrite arm_keyof. unfold st1, keyof, set_timer, updf, tm; simpl.
+           destruct (Z.eqb_spec u t) as [->|]; reflexivity.
+      * apply (Inv_iff _ _ _ _ _ (H i)).
+        -- intros u. unfold member. rewrite arm_tm, Ea. destruct (Z.eqb_spec u t) as [->|Nu]; simpl; [|tauto].
+           split; [intros [_ [A _]]; congruence|intros [_ [_ A]]; congruence].
+        -- intros g u _. apply arm_keyof.
+    + intros k R i. rewrite arm_heap, Ea. fold st1. pose proof (R i). destruct (Z.eqb_spec i tidx) as [->|N]; [rewrite IC|]; lia.
+Qed.
+
+Lemma room_weaken st k k' : room st k -> k' <= k -> room st k'.
+Proof. intros R L i. pose proof (R i). lia. Qed.
+
+Lemma disarm_other st t u : u <> t -> tm (disarm st t) u = tm st u.
+Proof. intros. rewrite disarm_tm. destruct (Z.eqb_spec u t); congruence. Qed.
+Lemma arm_other st t tidx u : u <> t -> tm (arm st t tidx) u = tm st u.
+Proof. intros. rewrite arm_tm. destruct (t_armed (tm st t)); auto. destruct (Z.eqb_spec u t); congruence. Qed.
+Lemma resume_other st t u : u <> t -> tm (resume st t) u = tm st u.
+Proof.
+  intros N. unfold resume.
+  destruct (t_armed (tm st t) && _); destruct (needs_rearm (tm st t));
+    rewrite ?arm_other, ?disarm_other by auto; reflexivity.
+Qed.
+
+Lemma resume_armed st t :
+  t_armed (tm (resume st t) t) = needs_rearm (tm st t) /\
+  (needs_rearm (tm st t) = true -> t_ident (tm (resume st t) t) = unote_idx (tm st t)).
+Proof.
+  unfold resume. set (x := tm st t). set (tidx := unote_idx x).
+  destruct (needs_rearm x) eqn:W; destruct (t_armed x) eqn:A; cbn [andb negb orb].
+  - destruct (Z.eqb_spec (t_ident x) tidx) as [E|E]; cbn [negb].
+    + rewrite arm_tm. fold x. rewrite A. fold x. rewrite A. auto.
+    + rewrite arm_tm, !disarm_tm, Z.eqb_refl. fold x. simpl. auto.
+  - rewrite arm_tm. fold x. rewrite A, Z.eqb_refl. simpl. auto.
+  - rewrite disarm_tm, Z.eqb_refl. fold x. simpl. split; [auto|discriminate].
+  - fold x. rewrite A. split; [auto|discriminate].
+Qed.
+
+Lemma resume_X st t :
+  HInvsX st t -> t <> 0 -> room st 1 ->
+  HInvs (resume st t) /\ (forall k, room st (k + 1) -> room (resume st t) k).
+Proof.
+  intros HX Nz R1. unfold resume. set (x := tm st t). set (tidx := unote_idx x).
+  destruct (t_armed x) eqn:A; cbn [andb].
+  - assert (M : member st (t_ident x) t) by (unfold member; auto).
+    destruct (needs_rearm x) eqn:W; cbn [negb orb].
+    + destruct (Z.eqb_spec (t_ident x) tidx) as [E|E]; cbn [negb].
+      * apply arm_X; auto.
+      * destruct (disarm_X st t HX M) as [D DR].
+        assert (P1 : t_armed (tm (disarm st t) t) = true -> t_ident (tm (disarm st t) t) = tidx).
+        { rewrite disarm_tm, Z.eqb_refl. simpl. discriminate. }
+        destruct (arm_X (disarm st t) t tidx (HInvs_X _ _ D) Nz P1 (DR _ R1)) as [AI AR].
+        split; auto.
+    + destruct (disarm_X st t HX M) as [D DR]. split; auto. intros k R. apply DR. eapply room_weaken; eauto. lia.
+  - destruct (needs_rearm x) eqn:W.
+    + apply arm_X; auto. fold x. rewrite A. discriminate.
+    + split; [eapply HInvsX_notarmed; eauto|]. intros k R. eapply room_weaken; eauto. lia.
+Qed.
+
+Lemma HInvs_set_notarmed st t v :
+  HInvs st -> t_armed (tm st t) = false -> t_armed v = false -> HInvs (set_timer st t v).
+Proof.
+  intros H A Av tidx. apply (Inv_iff _ _ _ _ _ (H tidx)).
+  - intros u. unfold member. destruct (Z.eq_dec u t) as [->|N].
+    + rewrite tm_set_timer_eq. split; intros [_ [X _]]; congruence.
+    + rewrite tm_set_timer_neq by auto. tauto.
+  - intros g u [_ [X _]]. apply keyof_set_timer. intros ->. congruence.
+Qed.
+
+(* ---- the full state invariant *)
+Record GInv (st : state) : Prop := {
+  gi_heaps : HInvs st;
+  gi_null : t_armed (tm st 0) = false;
+  gi_marker : forall t, t_armed (tm st t) = true -> Z.land (t_pending (tm st t)) 1 = 0;
+  gi_tgt : forall t, t_armed (tm st t) = true -> t_target (tm st t) < INT64_MAX
+}.
+
+Lemma needs_rearm_tgt x : needs_rearm x = true -> t_target x < INT64_MAX.
+Proof. unfold needs_rearm. destruct (t_susp x); [discriminate|]. intros H. apply andb_true_iff in H. lia. Qed.
+
+(* a generic way to re-establish the three per-timer clauses: only timer t changed *)
+Lemma GInv_intro st st' t :
+  GInv st -> HInvs st' -> t <> 0 -> (forall u, u <> t -> tm st' u = tm st u) ->
+  (t_armed (tm st' t) = true -> Z.land (t_pending (tm st' t)) 1 = 0 /\ t_target (tm st' t) < INT64_MAX) ->
+  GInv st'.
+Proof.
+  intros G H Nz Ho Ht. constructor; auto.
+  - rewrite Ho by auto. apply G.
+  - intros u A. destruct (Z.eq_dec u t) as [->|N]; [apply Ht; auto|]. rewrite Ho in * by auto. apply G; auto.
+  - intros u A. destruct (Z.eq_dec u t) as [->|N]; [apply Ht; auto|]. rewrite Ho in * by auto. apply G; auto.
+Qed.
+
+Lemma resume_G st t :
+  GInv st -> t <> 0 -> room st 1 -> Z.land (t_pending (tm st t)) 1 = 0 -> GInv (resume st t).
+Proof.
+  intros G Nz R Hp. destruct (resume_X st t (HInvs_X _ _ (gi_heaps _ G)) Nz R) as [H _].
+  apply (GInv_intro st _ t G H Nz (fun u N => resume_other st t u N)).
+  intros A. destruct (resume_armed st t) as [Ea _]. rewrite Ea in A.
+  destruct (resume_vals st t t) as (_ & _ & Et & _ & _ & Ep & _). rewrite Et, Ep. split; auto. apply needs_rearm_tgt; auto.
+Qed.
+
+Lemma disarm_G st t : GInv st -> t <> 0 -> t_armed (tm st t) = true -> GInv (disarm st t).
+Proof.
+  intros G Nz A. assert (M : member st (t_ident (tm st t)) t) by (unfold member; auto).
+  destruct (disarm_X st t (HInvs_X _ _ (gi_heaps _ G)) M) as [H _].
+  apply (GInv_intro st _ t G H Nz (fun u N => disarm_other st t u N)).
+  rewrite disarm_tm, Z.eqb_refl. simpl. discriminate.
+Qed.
+
+Lemma unregister_G st t : GInv st -> t <> 0 -> GInv (unregister st t).
+Proof.
+  intros G Nz. unfold unregister.
+  assert (G1 : GInv (if t_armed (tm st t) then disarm st t else st) /\
+               t_armed (tm (if t_armed (tm st t) then disarm st t else st) t) = false).
+  { destruct (t_armed (tm st t)) eqn:A; [split; [apply disarm_G; auto|rewrite disarm_tm, Z.eqb_refl; reflexivity]|auto]. }
+  destruct G1 as [G1 A1]. set (st1 := if t_armed (tm st t) then disarm st t else st) in *.
+  apply (GInv_intro st1 _ t G1); auto.
+  - apply HInvs_set_notarmed; auto. apply G1.
+  - intros u N. apply tm_set_timer_neq; auto.
+  - rewrite tm_set_timer_eq. simpl. congruence.
+Qed.
+
+Lemma configure_G st t : GInv st -> t <> 0 -> room st 1 -> GInv (configure st t).
+Proof.
+  intros G Nz R. unfold configure. destruct (t_cfg (tm st t)) as [[[[c tg] dl] itv]|]; auto.
+  set (x1 := with_pending _ 0).
+  assert (Ea : t_armed x1 = t_armed (tm st t) /\ t_ident x1 = t_ident (tm st t) /\ t_pending x1 = 0).
+  { unfold x1. destruct (negb (c =? t_clock (tm st t))); simpl; auto. }
+  destruct Ea as [Ea [Ei Ep]].
+  pose proof (HInvs_set_values st t x1 (gi_heaps _ G) Ea Ei) as HX.
+  set (st1 := set_timer st t x1) in *.
+  assert (R1 : room st1 1) by exact R.
+  destruct (t_armed x1) eqn:A.
+  - destruct (resume_X st1 t HX Nz R1) as [H _].
+    apply (GInv_intro st _ t G H Nz).
+    + intros u N. rewrite resume_other by auto. apply tm_set_timer_neq; auto.
+    + intros A'. destruct (resume_armed st1 t) as [E1 _]. rewrite E1 in A'.
+      destruct (resume_vals st1 t t) as (_ & _ & Et & _ & _ & Ep' & _). rewrite Et, Ep'.
+      unfold st1 in *. rewrite tm_set_timer_eq in *. rewrite Ep. split; [reflexivity|]. apply needs_rearm_tgt; auto.
+  - apply (GInv_intro st _ t G); auto.
+    + eapply HInvsX_notarmed; eauto. unfold st1. rewrite tm_set_timer_eq. auto.
+    + intros u N. apply tm_set_timer_neq; auto.
+    + unfold st1. rewrite tm_set_timer_eq. congruence.
+Qed.
+
+Section Parity.
+Local Ltac Zify.zify_post_hook ::= Z.div_mod_to_equations.
+Lemma land1_mod x : Z.land x 1 = x mod 2.
+Proof. change 1 with (2 ^ 1 - 1). rewrite land_low by lia. reflexivity. Qed.
+Lemma even_pending c : Z.land (u64 (Z.shiftl c 1)) 1 = 0.
+Proof.
+  rewrite land1_mod, Z.shiftl_mul_pow2 by lia. change (2 ^ 1) with 2. unfold u64.
+  rewrite <- (Zmod_div_mod 2 18446744073709551616 (c * 2)) by (try lia; exists 9223372036854775808; reflexivity).
+  apply Z_mod_mult.
+Qed.
+End Parity.
+
+(* room bookkeeping for the composed operations *)
+Lemma resume_room st t k : GInv st -> t <> 0 -> room st (k + 1) -> 0 <= k -> room (resume st t) k.
+Proof.
+  intros G Nz R K. destruct (resume_X st t (HInvs_X _ _ (gi_heaps _ G)) Nz (room_weaken st (k + 1) 1 R ltac:(lia))) as [_ RR]. auto.
+Qed.
+Lemma disarm_room st t k : GInv st -> t <> 0 -> t_armed (tm st t) = true -> room st k -> room (disarm st t) k.
+Proof.
+  intros G Nz A R. assert (M : member st (t_ident (tm st t)) t) by (unfold member; auto).
+  destruct (disarm_X st t (HInvs_X _ _ (gi_heaps _ G)) M) as [_ RR]. auto.
+Qed.
+Lemma configure_room st t k : GInv st -> t <> 0 -> room st (k + 1) -> 0 <= k -> room (configure st t) k.
+Proof.
+  intros G Nz R K. unfold configure. destruct (t_cfg (tm st t)) as [[[[c tg] dl] itv]|]; [|eapply room_weaken; eauto; lia].
+  set (x1 := with_pending _ 0).
+  assert (Ea : t_armed x1 = t_armed (tm st t) /\ t_ident x1 = t_ident (tm st t)).
+  { unfold x1. destruct (negb (c =? t_clock (tm st t))); simpl; auto. }
+  destruct Ea as [Ea Ei].
+  pose proof (HInvs_set_values st t x1 (gi_heaps _ G) Ea Ei) as HX.
+  destruct (t_armed x1); [|eapply room_weaken; [exact R|lia]].
+  destruct (resume_X (set_timer st t x1) t HX Nz (room_weaken st (k + 1) 1 R ltac:(lia))) as [_ RR]. apply RR. exact R.
+Qed.
+
+Lemma min_member st tidx : GInv st -> h_slot (s_heaps st tidx) 0 <> 0 -> member st tidx (h_slot (s_heaps st tidx) 0).
+Proof.
+  intros G N. pose proof (gi_heaps _ G tidx) as I.
+  destruct (Z.eq_dec (h_count (s_heaps st tidx)) 0) as [E|E].
+  - exfalso. apply N. apply (iv_zero _ _ _ I). lia.
+  - destruct (iv_cnt _ _ _ I) as [C _]. apply (hi_fwd _ _ _ _ (iv_h0 _ _ _ I) 0); [lia|reflexivity].
+Qed.
+
+Lemma set_pending_notarmed_G st t p :
+  GInv st -> t <> 0 -> t_armed (tm st t) = false -> GInv (set_timer st t (with_pending (tm st t) p)).
+Proof.
+  intros G Nz A. apply (GInv_intro st _ t G); auto.
+  - apply HInvs_set_notarmed; auto. apply G.
+  - intros u N. apply tm_set_timer_neq; auto.
+  - rewrite tm_set_timer_eq. simpl. congruence.
+Qed.
+
+Lemma run_step_G st tidx now k :
+  GInv st -> h_slot (s_heaps st tidx) 0 <> 0 -> room st (k + 1) -> 0 <= k ->
+  let st' := fst (run_step st tidx now (h_slot (s_heaps st tidx) 0)) in
+  GInv st' /\ room st' k.
+Proof.
+  intros G N R K. set (dr := h_slot (s_heaps st tidx) 0) in *.
+  destruct (min_member st tidx G N) as [Nz [A Id]]. fold dr in Nz, A, Id.
+  assert (R0 : room st k) by (eapply room_weaken; eauto; lia).
+  unfold run_step. destruct (t_after (tm st dr)).
+  - (* dispatch_after timer *)
+    cbn [fst]. pose proof (disarm_G st dr G Nz A) as G1.
+    assert (A1 : t_armed (tm (disarm st dr) dr) = false) by (rewrite disarm_tm, Z.eqb_refl; reflexivity).
+    split; [apply set_pending_notarmed_G; auto|]. apply (disarm_room st dr k G Nz A R0).
+  - destruct (t_cfg (tm st dr)) as [cf|] eqn:Cf.
+    + cbn [fst]. split; [apply configure_G; auto; apply (room_weaken st (k + 1) 1 R); lia|apply configure_room; auto].
+    + destruct (nz (t_pending (tm st dr))).
+      * cbn [fst]. pose proof (disarm_G st dr G Nz A) as G1.
+        assert (A1 : t_armed (tm (disarm st dr) dr) = false) by (rewrite disarm_tm, Z.eqb_refl; reflexivity).
+        split; [apply set_pending_notarmed_G; auto|]. apply (disarm_room st dr k G Nz A R0).
+      * destruct (compute_missed _ _ _ _ _) as [[cnt tg] dl].
+        set (x1 := with_values (tm st dr) tg dl (t_interval (tm st dr))).
+        set (st1 := set_timer st dr x1).
+        assert (HX : HInvsX st1 dr) by (apply HInvs_set_values; [apply G|reflexivity|reflexivity]).
+        assert (T1 : tm st1 dr = x1) by apply tm_set_timer_eq.
+        rewrite T1.
+        destruct (needs_rearm x1) eqn:W; cbn [fst].
+        -- (* stays armed: heap update *)
+           assert (Hid : t_armed (tm st1 dr) = true -> t_ident (tm st1 dr) = tidx) by (rewrite T1; intros _; exact Id).
+           destruct (arm_X st1 dr tidx HX Nz Hid (room_weaken st (k + 1) 1 R ltac:(lia))) as [H2 RR].
+           set (st2 := arm st1 dr tidx) in *.
+           assert (T2 : tm st2 dr = x1).
+           { unfold st2. rewrite arm_tm, T1. unfold x1 at 1. simpl. rewrite A. reflexivity. }
+           split.
+           ++ apply (GInv_intro st _ dr G); auto.
+              ** apply HInvs_set_same; auto.
+              ** intros u Nu. rewrite tm_set_timer_neq by auto. unfold st2. rewrite arm_other by auto.
+                 apply tm_set_timer_neq; auto.
+              ** intros _. rewrite tm_set_timer_eq, T2. simpl. split; [apply even_pending|].
+                 apply (needs_rearm_tgt x1 W).
+           ++ intros i. change (s_heaps (set_timer st2 dr (with_pending (tm st2 dr) (u64 (Z.shiftl cnt 1)))) i) with (s_heaps st2 i).
+              apply RR. exact R.
+        -- (* leaves the heap *)
+           assert (M1 : member st1 (t_ident (tm st1 dr)) dr).
+           { rewrite T1. unfold member. rewrite T1. unfold x1; simpl. auto. }
+           destruct (disarm_X st1 dr HX M1) as [H2 RR].
+           set (st2 := disarm st1 dr) in *.
+           assert (A2 : t_armed (tm st2 dr) = false) by (unfold st2; rewrite disarm_tm, Z.eqb_refl; reflexivity).
+           split.
+           ++ apply (GInv_intro st _ dr G); auto.
+              ** apply HInvs_set_notarmed; auto.
+              ** intros u Nu. rewrite tm_set_timer_neq by auto. unfold st2. rewrite disarm_other by auto.
+                 apply tm_set_timer_neq; auto.
+              ** rewrite tm_set_timer_eq. cbn [t_armed with_pending]. rewrite A2. discriminate.
+           ++ intros i. change (s_heaps (set_timer st2 dr (with_pending (tm st2 dr) (Z.lor (u64 (Z.shiftl cnt 1)) DISPATCH_TIMER_DISARMED_MARKER))) i) with (s_heaps st2 i).
+              apply RR. exact R0.
+Qed.
+
+Theorem run_loop_G : forall fuel st tidx now ev st' ev' fin,
+  GInv st -> room st (Z.of_nat fuel) ->
+  run_loop fuel st tidx now ev = (st', ev', fin) -> GInv st'.
+Proof.
+  induction fuel as [|fuel IH]; intros st tidx now ev st' ev' fin G R E; cbn [run_loop] in E.
+  - inversion E; subst; auto.
+  - unfold DTH_TARGET_ID in E.
+    destruct (Z.eqb_spec (h_slot (s_heaps st tidx) 0) 0) as [Z0|N]; [inversion E; subst; auto|].
+    destruct (t_target (tm st (h_slot (s_heaps st tidx) 0)) >? now); [inversion E; subst; auto|].
+    destruct (run_step_G st tidx now (Z.of_nat fuel) G N ltac:(rewrite Nat2Z.inj_succ in R; exact R) ltac:(lia)) as [G1 R1].
+    destruct (run_step st tidx now _) as [st1 e1]. cbn [fst] in *. eapply IH; eauto.
+Qed.
+
+(* run fixpoint, with no hypothesis about the final heap *)
+Theorem run_fixpoint_G st tidx now st' ev :
+  GInv st -> room st (h_count (s_heaps st tidx) + 1) ->
+  timers_run st tidx now = (st', ev, true) ->
+  GInv st' /\ forall t, member st' tidx t -> now < t_target (tm st' t).
+Proof.
+  intros G R E. unfold timers_run in E.
+  assert (Hc : 0 <= h_count (s_heaps st tidx)) by (destruct (iv_cnt _ _ _ (gi_heaps _ G tidx)); lia).
+  assert (G' : GInv st').
+  { eapply run_loop_G; eauto. rewrite Nat2Z.inj_add, Z2Nat.id by lia. exact R. }
+  split; auto. eapply run_fixpoint; eauto. apply G'.
+Qed.
+
+(* ---- the remaining operations *)
+Lemma Inv_set_np key S h b : Inv key S h -> Inv key S (set_np h b).
+Proof. intros I. eapply Inv_ext; eauto. Qed.
+
+Lemma HInvs_heaps_np st hs' (hm : Z -> bool) (kt : Z -> Z) d :
+  HInvs st -> (forall i, exists b, hs' i = set_np (s_heaps st i) b \/ hs' i = s_heaps st i) ->
+  HInvs (mkS hs' hm kt d (s_timers st)).
+Proof.
+  intros H E i. specialize (H i). destruct (E i) as [b [X|X]]; unfold member, tm in *; simpl; rewrite X; auto.
+  apply Inv_set_np; auto.
+Qed.
+
+Lemma GInv_heaps_np st hs' hm kt d :
+  GInv st -> (forall i, exists b, hs' i = set_np (s_heaps st i) b \/ hs' i = s_heaps st i) ->
+  GInv (mkS hs' hm kt d (s_timers st)).
+Proof.
+  intros G E. constructor; try apply G. apply HInvs_heaps_np; auto. apply G.
+Qed.
+
+Lemma updf_np_cases (hs : Z -> heap) tidx b : forall i, exists b', updf hs tidx (set_np (hs tidx) b) i = set_np (hs i) b' \/ updf hs tidx (set_np (hs tidx) b) i = hs i.
+Proof. intros i. exists b. unfold updf. destruct (Z.eqb_spec i tidx) as [->|]; auto. Qed.
+
+Lemma program_G st tidx now : GInv st -> GInv (fst (program st tidx now)).
+Proof.
+  intros G. unfold program. destruct (get_delay st tidx now) as [delay leeway].
+  assert (G1 : GInv (if delay =? 0 then set_dirty st true else st)).
+  { destruct (delay =? 0); auto. constructor; apply G. }
+  set (st1 := if delay =? 0 then set_dirty st true else st) in *.
+  assert (Hh : s_heaps st1 = s_heaps st /\ s_timers st1 = s_timers st) by (unfold st1; destruct (delay =? 0); auto).
+  destruct ((delay =? 0) || (delay >=? INT64_MAX)); cbn [fst];
+    apply GInv_heaps_np; auto; apply updf_np_cases.
+Qed.
+
+Lemma kernel_expired_G st tidx : GInv st -> GInv (kernel_expired st tidx).
+Proof. intros G. unfold kernel_expired. apply GInv_heaps_np; auto. apply updf_np_cases. Qed.
+
+Lemma set_same_G st t v :
+  GInv st -> t <> 0 -> t_armed v = t_armed (tm st t) -> t_ident v = t_ident (tm st t) ->
+  t_target v = t_target (tm st t) -> t_deadline v = t_deadline (tm st t) ->
+  (t_armed v = true -> Z.land (t_pending v) 1 = 0) -> GInv (set_timer st t v).
+Proof.
+  intros G Nz Ea Ei Et Ed Hp. apply (GInv_intro st _ t G); auto.
+  - apply HInvs_set_same; auto. apply G.
+  - intros u N. apply tm_set_timer_neq; auto.
+  - rewrite tm_set_timer_eq. intros A. split; auto. rewrite Et. apply G. congruence.
+Qed.
+
+Lemma set_notarmed_G st t v :
+  GInv st -> t <> 0 -> t_armed (tm st t) = false -> t_armed v = false -> GInv (set_timer st t v).
+Proof.
+  intros G Nz A Av. apply (GInv_intro st _ t G); auto.
+  - apply HInvs_set_notarmed; auto. apply G.
+  - intros u N. apply tm_set_timer_neq; auto.
+  - rewrite tm_set_timer_eq. congruence.
+Qed.
+
+Lemma latch_G st t now : GInv st -> t <> 0 -> GInv (fst (latch st t now)).
+Proof.
+  intros G Nz. unfold latch. set (x := tm st t).
+  destruct (t_armed x) eqn:A.
+  - pose proof (gi_marker _ G t A) as M. fold x in M. unfold DISPATCH_TIMER_DISARMED_MARKER. rewrite M.
+    cbn [nz Z.eqb negb fst]. apply set_same_G; auto.
+  - destruct (nz _); [destruct (_ && _); [destruct (compute_missed _ _ _ _ _) as [[cnt tg] dl]|]|];
+      cbn [fst]; apply set_notarmed_G; auto.
+Qed.
+
+(* what the callers of each operation guarantee (src/source.c, src/event/event.c) *)
+Definition guard (st : state) (o : top) : Prop :=
+  match o with
+  | TNew t _ => t <> 0
+  | TAfter t _ _ => t <> 0 /\ t_armed (tm st t) = false         (* _dispatch_after sets the values before activation *)
+  | TCfg t _ _ _ _ => t <> 0
+  | TReg t => t <> 0
+  | TConfigure t => t <> 0
+  | TResume t => t <> 0 /\ Z.land (t_pending (tm st t)) 1 = 0    (* _dispatch_source_invoke2: only when no data is pending *)
+  | TUnreg t => t <> 0
+  | TSusp t _ => t <> 0
+  | TPend _ _ => False                                            (* test-only command *)
+  | TLatch t _ => t <> 0
+  | TRun tidx _ => True
+  | TProg _ _ => True
+  | TObs => True
+  end.
+Definition needs_room (st : state) (o : top) : Z :=
+  match o with TRun tidx _ => h_count (s_heaps st tidx) + 1 | _ => 1 end.
+
+Theorem tstep_G n st o :
+  GInv st -> guard st o -> room st (needs_room st o) -> GInv (fst (tstep n st o)).
+Proof.
+  intros G Gd R. destruct o; cbn [tstep guard needs_room fst] in *.
+  - (* TNew *)
+    assert (G1 : GInv (if t_armed (tm st t) then unregister st t else st) /\
+                 t_armed (tm (if t_armed (tm st t) then unregister st t else st) t) = false).
+    { destruct (t_armed (tm st t)) eqn:A; [|auto]. split; [apply unregister_G; auto|].
+      unfold unregister. rewrite A, tm_set_timer_eq. cbn [t_armed with_ident]. rewrite disarm_tm, Z.eqb_refl. reflexivity. }
+    destruct G1 as [G1 A1]. apply set_notarmed_G; auto.
+  - destruct Gd as [Nz A]. apply set_notarmed_G; auto.
+  - unfold set_cfg. apply set_same_G; auto. intros A. apply G. exact A.
+  - unfold register. destruct (t_cfg (tm st t)); auto. apply configure_G; auto.
+  - apply configure_G; auto.
+  - destruct Gd as [Nz P]. apply resume_G; auto.
+  - apply unregister_G; auto.
+  - apply set_same_G; auto. intros A. apply G. exact A.
+  - contradiction.
+  - destruct (latch st t now) as [st' d] eqn:E. cbn [fst]. change st' with (fst (st', d)). rewrite <- E. apply latch_G; auto.
+  - destruct (timers_run st tidx now) as [[st' ev] fin] eqn:E. cbn [fst].
+    unfold timers_run in E. eapply run_loop_G; eauto.
+    assert (Hc : 0 <= h_count (s_heaps st tidx)) by (destruct (iv_cnt _ _ _ (gi_heaps _ G tidx)); lia).
+    rewrite Nat2Z.inj_add, Z2Nat.id by lia. exact R.
+  - unfold program_if_needed. destruct (h_np (s_heaps st tidx)); [|auto].
+    destruct (program st tidx now) as [st' c] eqn:E. cbn [fst]. change st' with (fst (st', c)). rewrite <- E. apply program_G; auto.
+  - auto.
+Qed.
+
+Lemma GInv_init : GInv init_state.
+Proof.
+  constructor; try reflexivity; try (intros t A; discriminate).
+  intros tidx. apply (Inv_iff (keyof (s_timers init_state)) _ (fun _ => False) _ _ (Inv_empty _)); [|tauto].
+  intros u. unfold member. split; [tauto|]. intros [_ [A _]]. discriminate.
+Qed.
+
+(* every history: any sequence of operations issued under the callers' guards, starting from the initial state, on
+   which the heaps are never filled up to their 2^31 - 26 cells *)
+Fixpoint valid_run (n : Z) (st : state) (ops : list top) : Prop :=
+  match ops with
+  | [] => True
+  | o :: r => guard st o /\ room st (needs_room st o) /\ valid_run n (fst (tstep n st o)) r
+  end.
+Definition run_ops (n : Z) (st : state) (ops : list top) : state := fold_left (fun s o => fst (tstep n s o)) ops st.
+
+Theorem GInv_reachable n : forall ops st, GInv st -> valid_run n st ops -> GInv (run_ops n st ops).
+Proof.
+  induction ops as [|o r IH]; intros st G V; cbn [run_ops fold_left valid_run] in *; auto.
+  destruct V as [Gd [R V]]. apply IH; auto. apply tstep_G; auto.
+Qed.
